@@ -194,3 +194,26 @@ def selftest():
     assert len(pkcs7_pad(b"x" * 16)) == 32
     assert aes_decrypt(key, aes_encrypt(key, iv, b"hello")) == b"hello"
     return True
+
+
+def cross_check_openssl():
+    """Compare with the openssl command line tool when one is installed (None when it is not)."""
+    import shutil
+    import subprocess
+
+    exe = shutil.which("openssl")
+    if not exe:
+        return None
+    key = bytes(range(32))
+    iv = bytes(range(100, 116))
+    for msg in (b"", b"a", b"sixteen byte msg", b"x" * 33):
+        try:
+            out = subprocess.run([exe, "enc", "-aes-256-cbc", "-K", key.hex(), "-iv", iv.hex(), "-nosalt"], input=msg,
+                                 capture_output=True, timeout=20)
+        except Exception:
+            return None
+        if out.returncode != 0:
+            return None
+        if iv + out.stdout != aes_encrypt(key, iv, msg):
+            raise AssertionError("AES oracle disagrees with openssl for a %d-byte message" % len(msg))
+    return True
